@@ -315,6 +315,54 @@ def consumer_obligations(R):
         R.ob('core.AurelCore.__init__:symbolic-run', '__init__', 'undecided', 'z3', time.time() - t0, f'{type(e).__name__}: {e}')
 
 
+def frame_obligations(R):
+    """frame of every public method of the grid object: arguments and the grid's own arrays (x, r, theta, coordinate
+    stacks ...) are write-protected (numpy raises on ANY in-place write, whatever the values), the method is called, and
+    all protected arrays must be bit-identical afterwards.  Input-independent: a write is caught on whichever element it hits."""
+    import numpy as np
+    import aurel
+    t0 = time.time()
+    bad = []
+    n = 0
+    for boundary in ('no boundary', 'periodic', 'symmetric'):
+        fd = aurel.FiniteDifference(dict(Nx=14, Ny=15, Nz=16, xmin=-1.3, ymin=-1.4, zmin=-1.5, dx=0.2, dy=0.2, dz=0.2), boundary=boundary, fd_order=4, verbose=False)
+        attrs = {k: v for k, v in vars(fd).items() if isinstance(v, np.ndarray)}
+        snap = {k: v.copy() for k, v in attrs.items()}
+        for v in attrs.values():
+            v.flags.writeable = False
+        rng = np.random.default_rng(5)
+
+        def arr(*lead):
+            a = rng.normal(size=lead + (14, 15, 16))
+            a.flags.writeable = False
+            return a
+        calls = [('d3x', (arr(),)), ('d3y', (arr(),)), ('d3z', (arr(),)), ('d3_scalar', (arr(),)), ('d3_rank1tensor', (arr(3),)), ('d3x_rank1tensor', (arr(3),)),
+                 ('d3y_rank1tensor', (arr(3),)), ('d3z_rank1tensor', (arr(3),)), ('d3_rank2tensor', (arr(3, 3),)), ('d3x_rank2tensor', (arr(3, 3),)),
+                 ('d3_rank3tensor', (arr(3, 3, 3),)), ('cutoffmask', (arr(),)), ('cutoffmask2', (arr(),)), ('excision', (arr(),)), ('excision2', (arr(),)),
+                 ('cartesian_to_spherical', (fd.x, fd.y, fd.z)), ('spherical_to_cartesian', (fd.r, fd.theta, fd.phi)),
+                 ('cartesian_to_spherical', (arr(), arr(), arr())), ('spherical_to_cartesian', (np.abs(arr()), np.abs(arr()), arr()))]
+        for name, args in calls:
+            if not hasattr(fd, name):
+                continue
+            args = tuple(a if not isinstance(a, np.ndarray) or not a.flags.writeable else (lambda b: (b.setflags(write=False), b)[1])(a) for a in args)
+            before = [a.copy() for a in args]
+            n += 1
+            try:
+                getattr(fd, name)(*args)
+            except ValueError as e:
+                if 'read-only' in str(e) or 'not writeable' in str(e):
+                    bad.append(f'FiniteDifference.{name} ({boundary}) writes in place into an array it was given / an array of the grid object: {e}')
+                    continue
+                raise
+            if any(not np.array_equal(a, b, equal_nan=True) for a, b in zip(args, before)) or any(not np.array_equal(attrs[k], snap[k], equal_nan=True) for k in attrs):
+                bad.append(f'FiniteDifference.{name} ({boundary}) changed its arguments or the grid arrays')
+    R.under_contract(aurel.FiniteDifference.spherical_to_cartesian)
+    R.under_contract(aurel.FiniteDifference.cartesian_to_spherical)
+    R.ob('fd.*:frame -- no method writes into its arguments or into the arrays of the grid object (coordinates stay the coordinates)', 'spherical_to_cartesian',
+         'refuted' if bad else 'discharged', 'write-protected-run', time.time() - t0, '; '.join(bad[:3]) or f'{n} calls on write-protected arrays', bad[:6] or None,
+         replay=lambda o: (bool(bad), '; '.join(bad[:3]) or 'no write attempted'))
+
+
 def native_grid_replay(o=None):
     """replay on the real class: parameter families incl. spacings whose multiples are not representable"""
     import numpy as np
@@ -357,6 +405,7 @@ def native_grid_replay(o=None):
 def run(R):
     from engine.canary import run_canaries
     run_canaries(R, ('symx',))
+    frame_obligations(R)
     R.assume('A1', 'A2', 'A6')
     R.trust('numpy contract: len(np.arange(N)) == N and np.arange(N)[i] == i for integer N >= 0; meshgrid(indexing="ij") broadcasts axis n of the n-th argument')
     R.notes.append('x_i = min + i*d is proved over the reals (A1); in binary64 the stored value is the correctly rounded fl(min + fl(i*d)), a deviation of at most 1 ulp each, which is reported here and not proved')
